@@ -142,14 +142,14 @@ def run_check(pid, tier, seed):
 
         def _alarm(signum, frame):
             raise _ValidationTimeout()
-        signal.signal(signal.SIGALRM, _alarm)
-        signal.alarm(240)
+        signal.signal(signal.SIGPROF, _alarm)
+        signal.setitimer(signal.ITIMER_PROF, 600)        # CPU time of this process
         try:
             validated = int(hm.validate(tier))
-            signal.alarm(0)
+            signal.setitimer(signal.ITIMER_PROF, 0)
             log('  validation of models/translation against the real code: %d concrete runs agree' % validated)
         except _ValidationTimeout:
-            inconclusive.append('model validation did not finish within 240 s (non-terminating code under test?)')
+            inconclusive.append('model validation did not finish within 600 s of CPU time (non-terminating code under test?)')
             log('  MODEL VALIDATION TIMEOUT')
         except AssertionError as e:
             inconclusive.append('model validation failed: %s' % (str(e)[:500],))
@@ -159,7 +159,7 @@ def run_check(pid, tier, seed):
             inconclusive.append('model validation error: %s' % traceback.format_exc()[-800:])
             log('  MODEL VALIDATION ERROR: %s' % traceback.format_exc()[-1500:])
         finally:
-            signal.alarm(0)
+            signal.setitimer(signal.ITIMER_PROF, 0)
 
     # 2. obligations
     obs = []
